@@ -89,7 +89,7 @@ func c20Run(c c20Case, st *fw.Stats) []fw.Viol {
 	switch c.Kind {
 	case "auth":
 		accounts := c20Accounts[c.Accounts]
-		for _, placement := range []string{"route", "global", "group", "global+405", "global+404", "route-dynamic-cached", "route-dynamic-cached-repeat", "nested-group-siblings", "group-use-siblings", "nested-group-siblings-single-mw", "group-use-siblings-single-mw", "global-two-gates", "group-use-two-gates"} {
+		for _, placement := range []string{"route", "global", "group", "global+405", "global+404", "route-dynamic-cached", "route-dynamic-cached-repeat", "nested-group-siblings", "group-use-siblings", "nested-group-siblings-single-mw", "group-use-siblings-single-mw", "global-two-gates", "group-use-two-gates", "banner-then-gate"} {
 			for _, hdr := range c20Auth {
 				st.Evals++
 				st.Nontrivial++
@@ -144,6 +144,10 @@ func c20Run(c c20Case, st *fw.Stats) []fw.Viol {
 						r.GET("/t", main, sibling)
 						r.GET("/u", main, sibling)
 					})
+				case "banner-then-gate":
+					// an upstream middleware has already sent body bytes when the gate decides
+					r.Use(func(ctx *rux.Context) { ctx.WriteString("banner;") })
+					r.GET("/s", main, auth, after)
 				case "global-two-gates":
 					// two gates from one call site (a loop): an open one (any well-formed credentials), then the real one
 					for _, acc := range []map[string]string{nil, accounts} {
@@ -226,6 +230,16 @@ func c20Run(c c20Case, st *fw.Stats) []fw.Viol {
 					}
 				}
 				what := fmt.Sprintf("HTTPBasicAuth(%v) as %s middleware, Authorization %q", accounts, placement, hdr)
+				if placement == "banner-then-gate" {
+					// 200 is already on the wire: only the gate itself is judged
+					body := w.Body.String()
+					if open && (strings.Join(trace, ",") != "after-mw,main user="+user || body != "banner;secret") {
+						add("auth:closed-for-valid", fmt.Sprintf("%s: valid credentials, but downstream trace %v body %q", what, trace, body))
+					} else if !open && (len(trace) != 0 || strings.Contains(body, "secret")) {
+						add("auth:open-for-invalid", fmt.Sprintf("%s (a middleware in front of the gate had already written \"banner;\"): the gate must stay closed, but downstream ran: %v (body %q)", what, trace, body))
+					}
+					continue
+				}
 				if open {
 					wantTrace := "after-mw,main user=" + user
 					if strings.HasSuffix(placement, "-single-mw") {
@@ -454,7 +468,7 @@ func c20Run(c c20Case, st *fw.Stats) []fw.Viol {
 var c20Spec = fw.Spec[c20Case]{
 	ID:    "C20",
 	Level: "model_checking",
-	Rule: "complete decision tables: HTTPBasicAuth: 6 account maps (nil, empty, one user, empty password, two users, password containing ':') x 27 Authorization values (incl. the full square of known / unknown / empty users x matching / other / empty passwords) (absent, valid, wrong password, unknown user, empty user / password, no colon, bare scheme, bad base64, scheme in other case, other scheme, double space, padding, leading space, case-changed user, empty) x 13 placements (two gates registered from one call site with Router.Use, globally and inside a group; route, global, group middleware; global gate in front of the not-allowed and of the not-found handlers; a dynamic route on a caching router, first request and repeat after a valid one filled the cache; route-level gate of the first of several sibling routes inside nested groups / inside a group with three Use calls, with two and with exactly one route-level middleware per sibling); " +
+	Rule: "complete decision tables: HTTPBasicAuth: 6 account maps (nil, empty, one user, empty password, two users, password containing ':') x 27 Authorization values (incl. the full square of known / unknown / empty users x matching / other / empty passwords) (absent, valid, wrong password, unknown user, empty user / password, no colon, bare scheme, bad base64, scheme in other case, other scheme, double space, padding, leading space, case-changed user, empty) x 14 placements (behind a middleware that has already written body bytes; two gates registered from one call site with Router.Use, globally and inside a group; route, global, group middleware; global gate in front of the not-allowed and of the not-found handlers; a dynamic route on a caching router, first request and repeat after a valid one filled the cache; route-level gate of the first of several sibling routes inside nested groups / inside a group with three Use calls, with two and with exactly one route-level middleware per sibling); " +
 		"HTTPMethodOverrideHandler: 10 request methods x 13 override values x 6 carriers (none, header, query, body, header+query agreeing, header+body disagreeing - the last for totality only); WrapHTTPHandlers: lists of 1..4 distinguishable wrappers (+ the override gate in the list); WrapHTTPHandler / WrapHTTPHandlerFunc and their four aliases at every subset of positions of chains n<=4; every row is non-trivial",
 	Assume: []string{"'well-formed Basic credentials' = scheme Basic (any case), one space, valid base64, a colon in the decoded text", "when both override carriers disagree the statement does not say which wins; those rows are executed but not asserted"},
 	Bounds: func(tier string) map[string]any {
